@@ -1,7 +1,477 @@
-import CmModel.Color
-import CmGen.NamedColors
-/-! # C07 — placeholder until the parsing theorems are merged; re-checked against the regenerated table -/
+import CmProofs.ParseLemmas
+import CmProofs.ParseSpec
+import CmProofs.ParseHslaStr
+/-!
+# C07 — every in-range CSS Color 3 value is parsed to the colour CSS defines
+
+Statements are about the model's parser (`Cm.Parse`), at the exact rational carrier `Cm.ratNum`
+where numbers are involved, for every character-class oracle that agrees with ASCII below 128
+(`AsciiFaithful`) where `strip`/`lower` are involved. `namedEnv` is the keyword table generated from
+the Python source; `specTable` is CSS Color 3's table plus `rebeccapurple` (spec-side data).
+Helpers: `CmProofs/ParseStr.lean`, `ParseTable.lean`, `ParseLemmas.lean`, `ParseSpec.lean`,
+`ParseNumRe.lean`, `ParseFloatStr.lean`, `ParseRgbStr.lean`, `ParseHslStr.lean`, `ParseHslaStr.lean`.
+Theorems named `…_ascii` are stated for the ASCII oracle `asciiCls` only.
+-/
 namespace CmProps.C07
-/-- the regenerated keyword table has 148 entries -/
-theorem namedTable_length : CmGen.namedTable.length = 148 := by decide +kernel
+open Cm Cm.Parse Cm.ParseSpec
+
+/-! ## 1. keywords -/
+
+/-- every CSS Color 3 keyword (and `rebeccapurple`) is in the generated table with a value that reads as the colour the standard lists -/
+theorem named_table_spec : ∀ kv ∈ specTable, ∃ hex,
+    lookupNamed ⟨asciiCls, namedEnv⟩ kv.1.toList = some hex ∧
+    hexToRgb ⟨asciiCls, namedEnv⟩ hex = .ok (rgbOfNat kv.2) := fun _ h =>
+  let ⟨hex, h1, _, h2⟩ := (specEntryFacts h).lookup; ⟨hex, h1, h2⟩
+
+/-- the generated table has 148 entries with pairwise distinct keys (as has the spec table) -/
+theorem named_table_size : CmGen.namedTable.length = 148 ∧
+    (CmGen.namedTable.map fun kv => kv.1.toList).Nodup ∧
+    specTable.length = 148 ∧ (specTable.map fun kv => kv.1.toList).Nodup :=
+  ⟨namedTable_length, nodup_of_distinctB namedTable_distinctB, specTable_length,
+    nodup_of_distinctB specTable_distinctB⟩
+
+/-- the generated table denotes exactly the spec table: same (keyword, colour) pairs up to order -/
+theorem named_table_perm : (specTable.map specDenote).Perm (namedEnv.map denote) := specTable_perm
+
+section
+variable {α : Type} [Num α] {cls : CharCls}
+
+/-- a keyword parses to the colour CSS lists for it (any carrier, any faithful oracle, any background) -/
+theorem named_parse (hf : AsciiFaithful cls) {kv : String × (Nat × Nat × Nat)} (hkv : kv ∈ specTable)
+    (bg : Option RGB) : parseStr (α := α) ⟨cls, namedEnv⟩ kv.1.toList bg = .ok (rgbOfNat kv.2) := by
+  have F := specEntryFacts hkv
+  exact parseStr_named_of_lower hf hkv _ ((strip_faithful hf F.ascii).trans F.strip)
+    ((lower_faithful hf F.ascii).trans F.lower) bg
+
+/-- any spelling whose lower-casing is the keyword (any letter-case variant) parses to the same colour -/
+theorem named_any_case (hf : AsciiFaithful cls) {kv : String × (Nat × Nat × Nat)}
+    (hkv : kv ∈ specTable) (s : Str) (hs : Str.strip cls s = s) (hl : Str.lower cls s = kv.1.toList)
+    (bg : Option RGB) : parseStr (α := α) ⟨cls, namedEnv⟩ s bg = .ok (rgbOfNat kv.2) :=
+  parseStr_named_of_lower hf hkv s hs hl bg
+
+/-- in particular the all-capitals spelling of every keyword -/
+theorem named_upper_case (hf : AsciiFaithful cls) {kv : String × (Nat × Nat × Nat)}
+    (hkv : kv ∈ specTable) (bg : Option RGB) :
+    parseStr (α := α) ⟨cls, namedEnv⟩ (kv.1.toList.map Char.toUpper) bg = .ok (rgbOfNat kv.2) := by
+  have F := specEntryFacts hkv
+  exact parseStr_named_of_lower hf hkv _ ((strip_faithful hf F.upAscii).trans F.upStrip)
+    ((lower_faithful hf F.upAscii).trans F.upLower) bg
+
+/-! ## 2. hex -/
+
+/-- `#rrggbb`, digits in any letter case: channel = 16·(first digit) + (second digit) -/
+theorem hex6_any_case (hf : AsciiFaithful cls) {a b c d e f : Char}
+    (ha : Str.isHexDigit a = true) (hb : Str.isHexDigit b = true) (hc : Str.isHexDigit c = true)
+    (hd : Str.isHexDigit d = true) (he : Str.isHexDigit e = true) (hf' : Str.isHexDigit f = true)
+    (bg : Option RGB) :
+    parseStr (α := α) ⟨cls, namedEnv⟩ ['#', a, b, c, d, e, f] bg = .ok (hex6 a b c d e f) := by
+  rw [parseStr_hash hf (by simp) _ bg]
+  · exact hexToRgb_hash6 hf _ ha hb hc hd he hf'
+  · intro x hx; simp only [List.mem_cons, List.not_mem_nil, or_false] at hx
+    rcases hx with rfl | rfl | rfl | rfl | rfl | rfl <;> assumption
+
+/-- `#rgb` is `#rrggbb` -/
+theorem hex3_any_case (hf : AsciiFaithful cls) {a b c : Char}
+    (ha : Str.isHexDigit a = true) (hb : Str.isHexDigit b = true) (hc : Str.isHexDigit c = true)
+    (bg : Option RGB) :
+    parseStr (α := α) ⟨cls, namedEnv⟩ ['#', a, b, c] bg = .ok (hex6 a a b b c c) := by
+  rw [parseStr_hash hf (by simp) _ bg]
+  · exact hexToRgb_hash3 hf _ ha hb hc
+  · intro x hx; simp only [List.mem_cons, List.not_mem_nil, or_false] at hx
+    rcases hx with rfl | rfl | rfl <;> assumption
+
+/-- `#abc` and `#aabbcc` are the same colour -/
+theorem hex3_eq_hex6 (hf : AsciiFaithful cls) {a b c : Char}
+    (ha : Str.isHexDigit a = true) (hb : Str.isHexDigit b = true) (hc : Str.isHexDigit c = true)
+    (bg : Option RGB) :
+    parseStr (α := α) ⟨cls, namedEnv⟩ ['#', a, b, c] bg =
+      parseStr (α := α) ⟨cls, namedEnv⟩ ['#', a, a, b, b, c, c] bg := by
+  rw [hex3_any_case hf ha hb hc bg, hex6_any_case hf ha ha hb hb hc hc bg]
+
+/-- the value of a hex digit does not depend on its letter case, and is below 16 -/
+theorem hex_digit_case {c : Char} (hc : Str.isHexDigit c = true) :
+    Str.isHexDigit (lc c) = true ∧ hv (lc c) = hv c ∧ hv c < 16 :=
+  ⟨(hexCharFacts c hc).lcHex, (hexCharFacts c hc).lcVal, (hexCharFacts c hc).val_lt⟩
+
+/-- no keyword of the generated table is itself a 3- or 6-digit hex string -/
+theorem no_hex_keyword : ∀ kv ∈ namedEnv, isBareHex kv.1 = false := fun kv h => by
+  have := List.all_eq_true.1 no_hex_keyword_B kv h
+  simpa using this
+
+/-- a 3- or 6-digit hex string without `#` parses as with `#` -/
+theorem hex_optional_hash (hf : AsciiFaithful cls) {ds : Str} (hb : isBareHex ds = true)
+    (bg : Option RGB) :
+    parseStr (α := α) ⟨cls, namedEnv⟩ ds bg = parseStr (α := α) ⟨cls, namedEnv⟩ ('#' :: ds) bg := by
+  rw [parseStr_bare hf hb bg, parseStr_hash hf (isBareHex_ne_nil hb) (isBareHex_all hb) bg]
+
+/-! ## 3. sequences of three 8-bit integers -/
+
+/-- a tuple of three integers in 0..255 parses to itself (any carrier) -/
+theorem tuple_identity (E : PEnv) {r g b : Int} (hr : 0 ≤ r ∧ r ≤ 255) (hg : 0 ≤ g ∧ g ≤ 255)
+    (hb : 0 ≤ b ∧ b ≤ 255) (bg : Option RGB) :
+    parseColor (α := α) E (.tuple [.int r, .int g, .int b]) bg = .ok (r, g, b) := by
+  simp [parseColor, rgbComponent, hr, hg, hb, clamp255, validRgb, bind, Except.bind, pure, Except.pure]
+
+/-- … and so does a list -/
+theorem list_identity (E : PEnv) {r g b : Int} (hr : 0 ≤ r ∧ r ≤ 255) (hg : 0 ≤ g ∧ g ≤ 255)
+    (hb : 0 ≤ b ∧ b ≤ 255) (bg : Option RGB) :
+    parseColor (α := α) E (.list [.int r, .int g, .int b]) bg = .ok (r, g, b) := by
+  simp [parseColor, rgbComponent, hr, hg, hb, clamp255, validRgb, bind, Except.bind, pure, Except.pure]
+
+/-! ## spellings CSS treats alike -/
+
+/-- whitespace around a colour string is immaterial (any oracle, any table, any carrier) -/
+theorem surrounding_whitespace (E : PEnv) (w1 s w2 : Str) (h1 : ∀ c ∈ w1, E.cls.isSpace c = true)
+    (h2 : ∀ c ∈ w2, E.cls.isSpace c = true) (bg : Option RGB) :
+    parseStr (α := α) E (w1 ++ s ++ w2) bg = parseStr (α := α) E s bg := by
+  rw [← parseStr_strip E (w1 ++ s ++ w2), strip_ws_append E.cls w1 s w2 h1 h2, parseStr_strip]
+
+/-- `rgb(`/`rgba(`/`hsl(`/`hsla(` notations: two spellings with the same lower-casing parse alike -/
+theorem function_notation_case (E : PEnv) (s t : Str) (bg : Option RGB)
+    (hs : Str.strip E.cls s = s) (ht : Str.strip E.cls t = t)
+    (hl : Str.lower E.cls s = Str.lower E.cls t)
+    (hfn : Str.startsWith (Str.lower E.cls s) "hsl(".toList = true ∨
+           Str.startsWith (Str.lower E.cls s) "hsla(".toList = true ∨
+           Str.startsWith (Str.lower E.cls s) "rgb(".toList = true ∨
+           Str.startsWith (Str.lower E.cls s) "rgba(".toList = true) :
+    parseStr (α := α) E s bg = parseStr (α := α) E t bg := parseStr_fn_case E s t bg hs ht hl hfn
+
+end
+
+/-! ## 4. rounding at the exact carrier -/
+
+/-- Python `round` picks a nearest integer -/
+theorem roundHE_near (x : ℚ) : |((@Num.roundHE ℚ ratNum x : ℤ) : ℚ) - x| ≤ 1 / 2 := roundQ_near x
+
+/-- … and leaves integers alone -/
+theorem roundHE_int (n : ℤ) : @Num.roundHE ℚ ratNum (n : ℚ) = n := roundQ_int n
+
+/-- Python `int` drops the fractional part of a non-negative number -/
+theorem trunc_near {x : ℚ} (hx : 0 ≤ x) :
+    0 ≤ x - (@Num.trunc ℚ ratNum x : ℤ) ∧ x - (@Num.trunc ℚ ratNum x : ℤ) < 1 := truncQ_near hx
+
+/-! ## 5. `rgb()` components -/
+
+/-- a plain number is accepted as a colour component exactly when it lies in [0, 255], unchanged -/
+theorem rangeToken_component_iff (v : ℚ) :
+    @rangeToken ℚ ratNum v true = .ok v ↔ 0 ≤ v ∧ v ≤ 255 := rangeToken_component_ok_iff v
+
+/-- outside [0, 255] a plain component is rejected -/
+theorem rangeToken_component_reject (v : ℚ) (h : ¬ (0 ≤ v ∧ v ≤ 255)) :
+    @rangeToken ℚ ratNum v true = .error .valueError := by
+  rw [rangeToken_component, if_neg h]
+
+/-- an integer component in 0..255 is read as itself -/
+theorem rgb_channel_int {n : ℤ} (h0 : 0 ≤ n) (h1 : n ≤ 255) :
+    (@rangeToken ℚ ratNum (n : ℚ) true).map (@Num.roundHE ℚ ratNum) = .ok n := by
+  have : (0 : ℚ) ≤ n ∧ (n : ℚ) ≤ 255 := ⟨by exact_mod_cast h0, by exact_mod_cast h1⟩
+  rw [(rangeToken_component_ok_iff _).2 this]
+  exact congrArg Except.ok (roundQ_int n)
+
+/-- a token `…%` whose body reads as `v` is the component `max 0 (min 255 (v·255/100))` (alpha: `max 0 (min 1 (v/100))`) -/
+theorem numberToken_percent (E : PEnv) {tok body : Str} {v : ℚ} (component : Bool)
+    (hs : Str.strip E.cls tok = body ++ ['%']) (hp : @PyFloat.parse E.cls ℚ ratNum body = .ok v) :
+    @numberToken ℚ ratNum E tok component =
+      .ok (if component then max 0 (min 255 (v * 255 / 100)) else max 0 (min 1 (v / 100))) :=
+  numberToken_pct E component hs hp
+
+/-- a token without `%` that reads as `v` is range-checked as `v` -/
+theorem numberToken_number (E : PEnv) {tok : Str} {v : ℚ} (component : Bool)
+    (hs : Str.endsWith (Str.strip E.cls tok) ['%'] = false)
+    (hp : @PyFloat.parse E.cls ℚ ratNum (Str.strip E.cls tok) = .ok v) :
+    @numberToken ℚ ratNum E tok component = @rangeToken ℚ ratNum v component :=
+  numberToken_plain E component hs hp
+
+/-- a percentage p ∈ [0, 100] becomes the nearest 8-bit value of 255·p/100 -/
+theorem rgb_channel_pct {p : ℚ} (h0 : 0 ≤ p) (h1 : p ≤ 100) :
+    |((@Num.roundHE ℚ ratNum (max 0 (min 255 (p * 255 / 100))) : ℤ) : ℚ) - 255 * p / 100| ≤ 1 / 2 ∧
+    0 ≤ @Num.roundHE ℚ ratNum (max 0 (min 255 (p * 255 / 100))) ∧
+    @Num.roundHE ℚ ratNum (max 0 (min 255 (p * 255 / 100))) ≤ 255 := by
+  have e : max 0 (min 255 (p * 255 / 100)) = 255 * p / 100 := pctComponent_of_mem h0 h1
+  rw [e]
+  refine ⟨roundQ_near _, ?_⟩
+  exact roundQ_mem_Icc (lo := 0) (hi := 255) (by push_cast; positivity) (by push_cast; linarith)
+
+/-- percentages outside [0, 100] are clamped, not rejected -/
+theorem rgb_channel_pct_clamp (p : ℚ) :
+    (p ≤ 0 → max 0 (min 255 (p * 255 / 100)) = (0 : ℚ)) ∧
+    (100 ≤ p → max 0 (min 255 (p * 255 / 100)) = (255 : ℚ)) := by
+  constructor
+  · intro h; rw [min_eq_right (by linarith), max_eq_left (by linarith)]
+  · intro h; rw [min_eq_left (by linarith)]; norm_num
+
+/-! ## 6. `hsl()` -/
+
+/-- the model's HSL→RGB is CSS Color 3 §4.2.4 followed by rounding each channel to the nearest 8-bit value -/
+theorem hsl_eq_css3 (h s l : ℚ) :
+    @hslToRgbCore ℚ ratNum h s l =
+      (@Num.roundHE ℚ ratNum (255 * (css3HslToRgb (h / 360) s l).1),
+       @Num.roundHE ℚ ratNum (255 * (css3HslToRgb (h / 360) s l).2.1),
+       @Num.roundHE ℚ ratNum (255 * (css3HslToRgb (h / 360) s l).2.2)) := hslCore_eq_css3 h s l
+
+/-- Python's `% 360` is `x − 360·⌊x/360⌋ ∈ [0, 360)`, a whole number of turns away from `x`, and equals CSS's `((x mod 360) + 360) mod 360` for every hue -/
+theorem hue_wrap (x : ℚ) :
+    @Num.pmod ℚ ratNum x 360 = x - 360 * ⌊x / 360⌋ ∧
+    0 ≤ @Num.pmod ℚ ratNum x 360 ∧ @Num.pmod ℚ ratNum x 360 < 360 ∧
+    @Num.pmod ℚ ratNum x 360 = cssNormHue x :=
+  ⟨rfl, (pmodQ_360_range x).1, (pmodQ_360_range x).2, pmodQ_eq_cssNormHue x⟩
+
+/-- CSS's HSL colour has all channels in [0, 1] when s, l are -/
+theorem css3_hsl_range (H : ℚ) {s l : ℚ} (hs0 : 0 ≤ s) (hs1 : s ≤ 1) (hl0 : 0 ≤ l) (hl1 : l ≤ 1) :
+    (0 ≤ (css3Hsl H s l).1 ∧ (css3Hsl H s l).1 ≤ 1) ∧
+    (0 ≤ (css3Hsl H s l).2.1 ∧ (css3Hsl H s l).2.1 ≤ 1) ∧
+    (0 ≤ (css3Hsl H s l).2.2 ∧ (css3Hsl H s l).2.2 ≤ 1) :=
+  css3HslToRgb_range (div_nonneg (cssNormHue_range H).1 (by norm_num)) hs0 hs1 hl0 hl1
+
+/-- any hue (negative, beyond 360, fractional), s and l in range: a valid colour whose channels are the nearest 8-bit values of 255 × CSS's -/
+theorem hsl_any_hue (E : PEnv) (H : ℚ) {s l : ℚ} (hs0 : 0 ≤ s) (hs1 : s ≤ 1) (hl0 : 0 ≤ l) (hl1 : l ≤ 1) :
+    ∃ R G B : ℤ, @hslSeqToRgb ℚ ratNum E (.float H) (.float s) (.float l) = .ok (R, G, B) ∧
+      validRgb (R, G, B) = true ∧
+      |(R : ℚ) - 255 * (css3Hsl H s l).1| ≤ 1 / 2 ∧ |(G : ℚ) - 255 * (css3Hsl H s l).2.1| ≤ 1 / 2 ∧
+      |(B : ℚ) - 255 * (css3Hsl H s l).2.2| ≤ 1 / 2 := by
+  obtain ⟨R, G, B, h, hv, hn⟩ := hslOfHue_spec H hs0 hs1 hl0 hl1
+  refine ⟨R, G, B, ?_, hv, hn⟩
+  rw [← h]
+  exact hslSeq_floats E H hs0 hs1 hl0 hl1
+
+/-! ## 7. translucent colours -/
+
+/-- `rgba`: each channel is the nearest integer to the source-over blend a·f + (1−a)·b -/
+theorem rgba_composite {r g b : ℤ} {a : ℚ} {bg : RGB} (hv : validRgb (r, g, b) = true)
+    (ha0 : 0 ≤ a) (ha1 : a ≤ 1) (hbg : validRgb bg = true) :
+    ∃ R G B : ℤ, @rgbaToRgb ℚ ratNum r g b a bg = .ok (R, G, B) ∧
+      |(R : ℚ) - (a * r + (1 - a) * bg.1)| ≤ 1 / 2 ∧ |(G : ℚ) - (a * g + (1 - a) * bg.2.1)| ≤ 1 / 2 ∧
+      |(B : ℚ) - (a * b + (1 - a) * bg.2.2)| ≤ 1 / 2 := by
+  refine ⟨_, _, _, rgbaToRgb_rat hv ha0 ha1 hbg, ?_, ?_, ?_⟩
+  · have := roundQ_near (r * a + bg.1 * (1 - a)); rwa [show a * r + (1 - a) * bg.1 = r * a + bg.1 * (1 - a) by ring]
+  · have := roundQ_near (g * a + bg.2.1 * (1 - a)); rwa [show a * g + (1 - a) * bg.2.1 = g * a + bg.2.1 * (1 - a) by ring]
+  · have := roundQ_near (b * a + bg.2.2 * (1 - a)); rwa [show a * b + (1 - a) * bg.2.2 = b * a + bg.2.2 * (1 - a) by ring]
+
+/-- alpha 1 gives the colour itself -/
+theorem alpha_one {r g b : ℤ} {bg : RGB} (hv : validRgb (r, g, b) = true) (hbg : validRgb bg = true) :
+    @rgbaToRgb ℚ ratNum r g b 1 bg = .ok (r, g, b) := by
+  rw [rgbaToRgb_rat hv (by norm_num) le_rfl hbg]
+  simp only [sub_self, mul_zero, add_zero, mul_one, roundQ_int]
+
+/-- alpha 0 gives the background -/
+theorem alpha_zero {r g b : ℤ} {bg : RGB} (hv : validRgb (r, g, b) = true) (hbg : validRgb bg = true) :
+    @rgbaToRgb ℚ ratNum r g b 0 bg = .ok bg := by
+  rw [rgbaToRgb_rat hv le_rfl (by norm_num) hbg]
+  simp only [sub_zero, mul_zero, zero_add, mul_one, roundQ_int]
+
+/-- the background of the `rgba` path: white unless one is supplied (which must be a valid colour) -/
+theorem rgba_background (b : RGB) (hb : validRgb b = true) :
+    bgParsed none = .ok (255, 255, 255) ∧ bgParsed (some b) = .ok b := by
+  unfold bgParsed; simp [hb]
+
+/-- `hsla`, alpha < 1: the HSL colour (8-bit) blended over the background (white by default), fraction dropped -/
+theorem hsla_composite (h : ℚ) {s l a : ℚ} (bg : Option RGB) (hs0 : 0 ≤ s) (hs1 : s ≤ 1)
+    (hl0 : 0 ≤ l) (hl1 : l ≤ 1) (ha0 : 0 ≤ a) (ha1 : a < 1)
+    (hbg : ∀ b, bg = some b → 0 ≤ b.1 ∧ 0 ≤ b.2.1 ∧ 0 ≤ b.2.2) :
+    ∃ R G B : ℤ, @hslaFinish ℚ ratNum h s l a bg = .ok (R, G, B) ∧
+      let c := @hslToRgbCore ℚ ratNum (@Num.pmod ℚ ratNum h 360) s l
+      let k : RGB := bg.getD (255, 255, 255)
+      (0 ≤ a * c.1 + (1 - a) * k.1 - R ∧ a * c.1 + (1 - a) * k.1 - R < 1) ∧
+      (0 ≤ a * c.2.1 + (1 - a) * k.2.1 - G ∧ a * c.2.1 + (1 - a) * k.2.1 - G < 1) ∧
+      (0 ≤ a * c.2.2 + (1 - a) * k.2.2 - B ∧ a * c.2.2 + (1 - a) * k.2.2 - B < 1) :=
+  hslaFinish_blend h bg hs0 hs1 hl0 hl1 ha0 ha1 hbg
+
+/-- `hsla`, alpha 1: the HSL colour itself -/
+theorem hsla_opaque (h : ℚ) {s l : ℚ} (bg : Option RGB) (hs0 : 0 ≤ s) (hs1 : s ≤ 1)
+    (hl0 : 0 ≤ l) (hl1 : l ≤ 1) :
+    @hslaFinish ℚ ratNum h s l 1 bg = .ok (@hslToRgbCore ℚ ratNum (@Num.pmod ℚ ratNum h 360) s l) := by
+  rw [hslaFinish_rat bg hs0 hs1 hl0 hl1 (by norm_num) le_rfl]
+  simp
+
+/-- `hsla` end to end: every channel within 1.5 of a·255·(CSS's HSL channel) + (1−a)·background -/
+theorem hsla_within (H : ℚ) {s l a : ℚ} (bg : Option RGB) (hs0 : 0 ≤ s) (hs1 : s ≤ 1)
+    (hl0 : 0 ≤ l) (hl1 : l ≤ 1) (ha0 : 0 ≤ a) (ha1 : a ≤ 1)
+    (hbg : ∀ b, bg = some b → 0 ≤ b.1 ∧ 0 ≤ b.2.1 ∧ 0 ≤ b.2.2) :
+    ∃ R G B : ℤ, @hslaFinish ℚ ratNum H s l a bg = .ok (R, G, B) ∧
+      let k : RGB := bg.getD (255, 255, 255)
+      |(R : ℚ) - (a * (255 * (css3Hsl H s l).1) + (1 - a) * k.1)| < 3 / 2 ∧
+      |(G : ℚ) - (a * (255 * (css3Hsl H s l).2.1) + (1 - a) * k.2.1)| < 3 / 2 ∧
+      |(B : ℚ) - (a * (255 * (css3Hsl H s l).2.2) + (1 - a) * k.2.2)| < 3 / 2 :=
+  hslaFinish_within H bg hs0 hs1 hl0 hl1 ha0 ha1 hbg
+
+/-! ## 8. whole function-notation strings (ASCII oracle, exact carrier)
+
+Vocabulary (from the helper files): `Numeral b v` — `b` is `ddd` or `[ddd].ddd` with value `v`;
+`NumTok t v p` — `t` is a numeral (`p = false`) or a numeral followed by `%` (`p = true`);
+`SignOf sgn neg` — `sgn` is empty, `-` or `+`; `AllSep j` — `j` consists of blanks and commas;
+`AllSp w` — `w` consists of blanks; `compOf v p` — `v`, or for a percentage `max 0 (min 255 (v·255/100))`;
+`alphaOf v p` — `v`, or for a percentage `max 0 (min 1 (v/100))`. -/
+
+/-- the text `rgb(r, g, b)` the library itself writes for a valid colour parses back to that colour -/
+theorem rgb_int_canonical_ascii {r g b : ℤ} (hr : 0 ≤ r ∧ r ≤ 255) (hg : 0 ≤ g ∧ g ≤ 255)
+    (hb : 0 ≤ b ∧ b ≤ 255) (bg : Option RGB) :
+    @parseStr ℚ ratNum ⟨asciiCls, namedEnv⟩ (fmtRgbFn (r, g, b)) bg = .ok (r, g, b) :=
+  parseStr_fmtRgbFn hr hg hb bg
+
+/-- the decimal text of a natural number is a numeral with that value -/
+theorem decimal_numeral (n : ℕ) : Numeral (toString n).toList (n : ℚ) := numeral_nat n
+
+/-- `rgb(t0 t1 t2)`, tokens numbers ≤ 255 or percentages, separated (and optionally surrounded) by blanks/commas: each channel is Python-`round` of the token's value -/
+theorem rgb_string_ascii {pre j0 j1 j2 j3 t0 t1 t2 : Str} {v0 v1 v2 : ℚ} {p0 p1 p2 : Bool}
+    (hpre : pre = "rgb(".toList ∨ pre = "rgba(".toList)
+    (h0 : AllSep j0) (h1 : AllSep j1) (hne1 : j1 ≠ []) (h2 : AllSep j2) (hne2 : j2 ≠ [])
+    (h3 : AllSep j3) (ht0 : NumTok t0 v0 p0) (ht1 : NumTok t1 v1 p1) (ht2 : NumTok t2 v2 p2)
+    (hr0 : p0 = false → v0 ≤ 255) (hr1 : p1 = false → v1 ≤ 255) (hr2 : p2 = false → v2 ≤ 255)
+    (bg : Option RGB) :
+    @parseStr ℚ ratNum ⟨asciiCls, namedEnv⟩
+        (pre ++ (j0 ++ (t0 ++ (j1 ++ (t1 ++ (j2 ++ (t2 ++ j3)))))) ++ [')']) bg =
+      .ok (@Num.roundHE ℚ ratNum (compOf v0 p0), @Num.roundHE ℚ ratNum (compOf v1 p1),
+           @Num.roundHE ℚ ratNum (compOf v2 p2)) :=
+  rgb_string hpre h0 h1 hne1 h2 hne2 h3 ht0 ht1 ht2 hr0 hr1 hr2 bg
+
+/-- `rgba(t0 t1 t2 t3)`: a valid colour, each channel within 1 of a·c + (1−a)·k, where c is the component token's exact value, a the alpha token's, k the background (white by default) -/
+theorem rgba_string_ascii {pre j0 j1 j2 j3 j4 t0 t1 t2 t3 : Str} {v0 v1 v2 v3 : ℚ} {p0 p1 p2 p3 : Bool}
+    (hpre : pre = "rgb(".toList ∨ pre = "rgba(".toList)
+    (h0 : AllSep j0) (h1 : AllSep j1) (hne1 : j1 ≠ []) (h2 : AllSep j2) (hne2 : j2 ≠ [])
+    (h3 : AllSep j3) (hne3 : j3 ≠ []) (h4 : AllSep j4)
+    (ht0 : NumTok t0 v0 p0) (ht1 : NumTok t1 v1 p1) (ht2 : NumTok t2 v2 p2) (ht3 : NumTok t3 v3 p3)
+    (hr0 : p0 = false → v0 ≤ 255) (hr1 : p1 = false → v1 ≤ 255) (hr2 : p2 = false → v2 ≤ 255)
+    (hr3 : p3 = false → v3 ≤ 1)
+    (bg : Option RGB) (hbg : ∀ b, bg = some b → validRgb b = true) :
+    ∃ R G B : ℤ, @parseStr ℚ ratNum ⟨asciiCls, namedEnv⟩
+        (pre ++ (j0 ++ (t0 ++ (j1 ++ (t1 ++ (j2 ++ (t2 ++ (j3 ++ (t3 ++ j4)))))))) ++ [')']) bg =
+          .ok (R, G, B) ∧
+      let k : RGB := bg.getD (255, 255, 255)
+      let a := alphaOf v3 p3
+      |(R : ℚ) - (a * compOf v0 p0 + (1 - a) * k.1)| ≤ 1 ∧
+      |(G : ℚ) - (a * compOf v1 p1 + (1 - a) * k.2.1)| ≤ 1 ∧
+      |(B : ℚ) - (a * compOf v2 p2 + (1 - a) * k.2.2)| ≤ 1 := by
+  obtain ⟨a0, a1⟩ := alphaOf_mem ht3.nonneg hr3
+  refine ⟨_, _, _, rgba_string hpre h0 h1 hne1 h2 hne2 h3 hne3 h4 ht0 ht1 ht2 ht3 hr0 hr1 hr2 hr3 bg hbg,
+    ?_, ?_, ?_⟩ <;>
+  exact blend_aux a0 a1 (roundQ_near _) (roundQ_near _)
+
+/-- `hsl(H, S%, L%)`, H with optional sign and fraction (any size), S, L ≤ 100: a valid colour whose channels are the nearest 8-bit values of 255 × CSS Color 3's HSL colour -/
+theorem hsl_string_ascii {j0 j1 j2 j3 sgn hb sb lb : Str} {neg : Bool} {vh vs vl : ℚ}
+    (hs : SignOf sgn neg) (hH : Numeral hb vh) (hS : Numeral sb vs) (hL : Numeral lb vl)
+    (h0 : AllSep j0) (h1 : AllSep j1) (hne1 : j1 ≠ []) (h2 : AllSep j2) (h3 : AllSep j3)
+    (hvs : vs ≤ 100) (hvl : vl ≤ 100) (bg : Option RGB) :
+    ∃ R G B : ℤ, @parseStr ℚ ratNum ⟨asciiCls, namedEnv⟩
+        ("hsl(".toList ++ (j0 ++ (((sgn ++ hb) ++ (j1 ++ ((sb ++ ['%']) ++ (j2 ++ (lb ++ ['%']))))) ++ j3))
+          ++ [')']) bg = .ok (R, G, B) ∧
+      validRgb (R, G, B) = true ∧
+      let c := css3Hsl (if neg then -vh else vh) (vs / 100) (vl / 100)
+      |(R : ℚ) - 255 * c.1| ≤ 1 / 2 ∧ |(G : ℚ) - 255 * c.2.1| ≤ 1 / 2 ∧ |(B : ℚ) - 255 * c.2.2| ≤ 1 / 2 := by
+  have hsr := unit_of_pct hS.nonneg hvs
+  have hlr := unit_of_pct hL.nonneg hvl
+  obtain ⟨R, G, B, hc, hv, hn⟩ :=
+    hslOfHue_spec (if neg then -vh else vh) hsr.1 hsr.2 hlr.1 hlr.2
+  refine ⟨R, G, B, ?_, hv, hn⟩
+  rw [hsl_string hs hH hS hL h0 h1 hne1 h2 h3 hvs hvl bg, hc]
+
+/-- `hsla(H, S%, L%, A)`: a colour whose channels are within 1.5 of a·255·(CSS's HSL channel) + (1−a)·background (white by default); a = A, or A/100 when A > 1 -/
+theorem hsla_string_ascii {w0 w1 w2 w3 w4 w5 w6 w7 sgn hb sb lb t3 : Str} {neg p3 : Bool}
+    {vh vs vl va : ℚ}
+    (hs : SignOf sgn neg) (hH : Numeral hb vh) (hS : Numeral sb vs) (hL : Numeral lb vl)
+    (hA : NumTok t3 va p3)
+    (s0 : AllSp w0) (s1 : AllSp w1) (s2 : AllSp w2) (s3 : AllSp w3) (s4 : AllSp w4) (s5 : AllSp w5)
+    (s6 : AllSp w6) (s7 : AllSp w7) (hvs : vs ≤ 100) (hvl : vl ≤ 100) (hva : va ≤ 100)
+    (bg : Option RGB) (hbg : ∀ b, bg = some b → 0 ≤ b.1 ∧ 0 ≤ b.2.1 ∧ 0 ≤ b.2.2) :
+    ∃ R G B : ℤ, @parseStr ℚ ratNum ⟨asciiCls, namedEnv⟩
+        ("hsla(".toList ++
+          (w0 ++ ((((sgn ++ hb) ++ w1) ++ ',' :: ((w2 ++ ((sb ++ ['%']) ++ w3)) ++ ',' ::
+            ((w4 ++ ((lb ++ ['%']) ++ w5)) ++ ',' :: (w6 ++ t3)))) ++ w7)) ++ [')']) bg = .ok (R, G, B) ∧
+      let k : RGB := bg.getD (255, 255, 255)
+      let a : ℚ := if va ≤ 1 then va else va / 100
+      let c := css3Hsl (if neg then -vh else vh) (vs / 100) (vl / 100)
+      |(R : ℚ) - (a * (255 * c.1) + (1 - a) * k.1)| < 3 / 2 ∧
+      |(G : ℚ) - (a * (255 * c.2.1) + (1 - a) * k.2.1)| < 3 / 2 ∧
+      |(B : ℚ) - (a * (255 * c.2.2) + (1 - a) * k.2.2)| < 3 / 2 := by
+  have hsr := unit_of_pct hS.nonneg hvs
+  have hlr := unit_of_pct hL.nonneg hvl
+  have har := alpha_of_value hA.nonneg hva
+  obtain ⟨R, G, B, hfin, hb⟩ := hslaFinish_within (pmodQ (if neg then -vh else vh) 360) bg hsr.1 hsr.2
+    hlr.1 hlr.2 har.1 har.2 hbg
+  rw [css3Hsl_pmod] at hb
+  refine ⟨R, G, B, ?_, hb⟩
+  rw [hsla_string hs hH hS hL hA s0 s1 s2 s3 s4 s5 s6 s7 bg]
+  exact hfin
+
+/-! ## examples: the hypotheses are satisfiable, the conclusions are the expected colours -/
+
+-- group 1: a keyword in mixed case
+example : @parseStr ℚ ratNum ⟨asciiCls, namedEnv⟩ "RebeccaPurple".toList none = .ok (102, 51, 153) :=
+  @named_any_case ℚ ratNum _ asciiFaithful_ascii CssSpec.rebeccapurple (by simp [specTable]) _
+    (by decide +kernel) (by decide +kernel) none
+
+example : @parseStr ℚ ratNum ⟨asciiCls, namedEnv⟩ ['#', 'F', 'f', 'A', '5', '0', '0'] none =
+    .ok (hex6 'F' 'f' 'A' '5' '0' '0') ∧ hex6 'F' 'f' 'A' '5' '0' '0' = (255, 165, 0) :=
+  ⟨@hex6_any_case ℚ ratNum _ asciiFaithful_ascii _ _ _ _ _ _ (by decide) (by decide) (by decide) (by decide) (by decide)
+    (by decide) none, by decide +kernel⟩
+
+example : isBareHex "c0ffee".toList = true := by decide +kernel
+
+example : @parseColor ℚ ratNum ⟨asciiCls, namedEnv⟩ (.tuple [.int 12, .int 0, .int 255]) none = .ok (12, 0, 255) :=
+  @tuple_identity ℚ ratNum _ _ _ _ (by decide) (by decide) (by decide) none
+
+example : @Num.roundHE ℚ ratNum (5 / 2) = 2 ∧ @Num.roundHE ℚ ratNum (7 / 2) = 4 ∧
+    @Num.trunc ℚ ratNum (7 / 2) = 3 := by decide +kernel
+
+example : |((@Num.roundHE ℚ ratNum (max 0 (min 255 ((50 : ℚ) * 255 / 100))) : ℤ) : ℚ) - 255 * 50 / 100| ≤ 1 / 2 :=
+  (rgb_channel_pct (p := 50) (by norm_num) (by norm_num)).1
+
+example : @parseStr ℚ ratNum ⟨asciiCls, namedEnv⟩ "rgb(50%, 0%, 100%)".toList none = .ok (128, 0, 255) := by
+  decide +kernel
+
+example : ∃ R G B : ℤ, @hslSeqToRgb ℚ ratNum ⟨asciiCls, []⟩ (.float (-120)) (.float 1) (.float (1 / 2)) = .ok (R, G, B) ∧
+    validRgb (R, G, B) = true :=
+  let ⟨R, G, B, h, hv, _⟩ := hsl_any_hue ⟨asciiCls, []⟩ (-120) (s := 1) (l := 1 / 2) (by norm_num) (by norm_num) (by norm_num) (by norm_num)
+  ⟨R, G, B, h, hv⟩
+
+example : @parseStr ℚ ratNum ⟨asciiCls, namedEnv⟩ "hsl(-120, 100%, 50%)".toList none = .ok (0, 0, 255) ∧
+    @parseStr ℚ ratNum ⟨asciiCls, namedEnv⟩ "hsl(600, 100%, 50%)".toList none = .ok (0, 0, 255) := by
+  decide +kernel
+
+example : @parseStr ℚ ratNum ⟨asciiCls, namedEnv⟩ "rgba(255, 0, 0, 0.5)".toList none = .ok (255, 128, 128) ∧
+    @parseStr ℚ ratNum ⟨asciiCls, namedEnv⟩ "rgba(255, 0, 0, 0.5)".toList (some (0, 0, 0)) = .ok (128, 0, 0) ∧
+    @parseStr ℚ ratNum ⟨asciiCls, namedEnv⟩ "hsla(0, 100%, 50%, 0.5)".toList none = .ok (255, 127, 127) := by
+  decide +kernel
+
+
+-- group 8: `rgb( 12 ,5,255 )` through the general theorem, and by evaluation
+example : @parseStr ℚ ratNum ⟨asciiCls, namedEnv⟩
+    ("rgb(".toList ++ ([' '] ++ ((toString 12).toList ++ ([' ', ','] ++ ((toString 5).toList ++
+      ([','] ++ ((toString 255).toList ++ [' '])))))) ++ [')']) none =
+    .ok (@Num.roundHE ℚ ratNum (compOf (12 : ℕ) false), @Num.roundHE ℚ ratNum (compOf (5 : ℕ) false),
+         @Num.roundHE ℚ ratNum (compOf (255 : ℕ) false)) :=
+  rgb_string_ascii (Or.inl rfl) (allSep_sp allSep_nil) (allSep_sp (allSep_comma allSep_nil)) (by simp)
+    (allSep_comma allSep_nil) (by simp) (allSep_sp allSep_nil)
+    (NumTok.plain (decimal_numeral 12)) (NumTok.plain (decimal_numeral 5))
+    (NumTok.plain (decimal_numeral 255)) (fun _ => by norm_num) (fun _ => by norm_num)
+    (fun _ => by norm_num) none
+
+example : "rgb(".toList ++ ([' '] ++ ((toString 12).toList ++ ([' ', ','] ++ ((toString 5).toList ++
+      ([','] ++ ((toString 255).toList ++ [' '])))))) ++ [')'] = "rgb( 12 ,5,255 )".toList ∧
+    @parseStr ℚ ratNum ⟨asciiCls, namedEnv⟩ "rgb( 12 ,5,255 )".toList none = .ok (12, 5, 255) ∧
+    @parseStr ℚ ratNum ⟨asciiCls, namedEnv⟩ "RGB(12, 5, 255)".toList none = .ok (12, 5, 255) := by
+  decide +kernel
+
+-- group 8: `hsl(-120, 100%, 50%)` and `hsla(480,100%,50%,0.5)` through the general theorems
+example : ∃ R G B : ℤ, @parseStr ℚ ratNum ⟨asciiCls, namedEnv⟩
+    ("hsl(".toList ++ ([] ++ (((['-'] ++ (toString 120).toList) ++ ([',', ' '] ++
+      (((toString 100).toList ++ ['%']) ++ ([',', ' '] ++ ((toString 50).toList ++ ['%']))))) ++ []))
+      ++ [')']) none = .ok (R, G, B) ∧ validRgb (R, G, B) = true :=
+  let ⟨R, G, B, h, hv, _⟩ := hsl_string_ascii SignOf.minus (decimal_numeral 120) (decimal_numeral 100)
+    (decimal_numeral 50) allSep_nil (allSep_comma (allSep_sp allSep_nil)) (by simp)
+    (allSep_comma (allSep_sp allSep_nil)) allSep_nil (by norm_num) (by norm_num) none
+  ⟨R, G, B, h, hv⟩
+
+example : ∃ R G B : ℤ, @parseStr ℚ ratNum ⟨asciiCls, namedEnv⟩
+    ("hsla(".toList ++ ([] ++ (((([] ++ (toString 480).toList) ++ []) ++ ',' ::
+      (([] ++ (((toString 100).toList ++ ['%']) ++ [])) ++ ',' ::
+      (([] ++ (((toString 50).toList ++ ['%']) ++ [])) ++ ',' ::
+      ([] ++ ((toString 0).toList ++ '.' :: (toString 5).toList))))) ++ [])) ++ [')']) none = .ok (R, G, B) :=
+  let ⟨R, G, B, h, _⟩ := hsla_string_ascii SignOf.none (decimal_numeral 480) (decimal_numeral 100)
+    (decimal_numeral 50)
+    (NumTok.plain (numeral_dec 0 5))
+    allSp_nil allSp_nil allSp_nil allSp_nil allSp_nil allSp_nil allSp_nil allSp_nil
+    (by norm_num) (by norm_num)
+    (by rw [show (toString 5).toList.length = 1 from by decide]; norm_num) none (fun _ h => by cases h)
+  ⟨R, G, B, h⟩
+
 end CmProps.C07
